@@ -209,10 +209,14 @@ func extremes(w []byte) [][]byte {
 		if i >= 16 && i < lo {
 			continue
 		}
-		if i > lo+420 {
+		span, vals := 160, []int{0xffff}
+		if thoroughTier {
+			span, vals = 420, []int{0xffff, 0xfffe, 0x8000}
+		}
+		if i > lo+span {
 			break
 		}
-		for _, v := range []int{0xffff, 0xfffe, 0x8000} {
+		for _, v := range vals {
 			m := cp(w)
 			m[i], m[i+1] = byte(v>>8), byte(v)
 			out = append(out, m)
